@@ -59,6 +59,23 @@ struct ChronoL {
 	bool operator==(const ChronoL& o) const { return tps == o.tps && tpms == o.tpms && ds == o.ds && dns == o.dns && tail == o.tail; }
 };
 
+// class shapes: a field serialised BEFORE the base classes, two base classes, fields between and after them
+struct ShapeA {
+	int a = 0;
+	template <class TArchive> void Serialize(TArchive& archive) { archive << KeyValue("a", a); }
+};
+struct ShapeB {
+	std::string b; bool b2 = false;
+	template <class TArchive> void Serialize(TArchive& archive) { archive << KeyValue("b", b) << KeyValue("b2", b2); }
+};
+struct ShapeL : ShapeA, ShapeB {
+	int pre = 0; int mid = 0; double post = 0;
+	template <class TArchive> void Serialize(TArchive& archive) {
+		archive << KeyValue("pre", pre) << BaseObject<ShapeA>(*this) << KeyValue("mid", mid) << BaseObject<ShapeB>(*this) << KeyValue("post", post);
+	}
+	bool operator==(const ShapeL& o) const { return a == o.a && b == o.b && b2 == o.b2 && pre == o.pre && mid == o.mid && post == o.post; }
+};
+
 std::string hexs(const std::string& s) { return hexBytes(s); }
 std::string show(const ChronoL& v) {
 	return "(" + std::to_string(v.tps.time_since_epoch().count()) + "," + std::to_string(v.tpms.time_since_epoch().count()) + "," +
@@ -72,6 +89,7 @@ template <class T> std::string show(const std::optional<T>& v) { return v ? "?" 
 template <class T, size_t N> std::string show(const std::array<T, N>& v) { std::string r = "["; for (auto& e : v) { r += show(e); r += ","; } return r + "]"; }
 template <class T> std::string show(const std::vector<T>& v) { std::string r = "["; for (auto& e : v) { r += show(e); r += ","; } return r + "]"; }
 template <class T> std::string show(const std::map<std::string, T>& v) { std::string r = "{"; for (auto& [k, e] : v) { r += hexs(k) + "=" + show(e) + ","; } return r + "}"; }
+std::string show(const ShapeL& v) { return "(" + show(v.pre) + "," + show(v.a) + "," + show(v.mid) + "," + show(v.b) + "," + show(v.b2) + "," + show(v.post) + ")"; }
 std::string show(const InnerL& v) { return "(" + show(v.a) + "," + show(v.s) + ")"; }
 std::string show(const OuterL& v) { return "(" + show(v.id) + "," + show(v.name) + "," + show(v.nums) + "," + show(v.inner) + "," + show(v.m) + "," + show(v.opt) + "," + show(v.flag) + "," + show(v.d) + ")"; }
 std::string show(const RowL& v) { return "(" + show(v.x) + "," + show(v.y) + "," + show(v.z) + "," + show(v.b) + ")"; }
@@ -182,6 +200,7 @@ void fill(std::mt19937& g, ChronoL& v) {
 	v.dns = nanoseconds(g() % 3 ? ns[g() % (sizeof ns / sizeof *ns)] : static_cast<long long>(g()) * 1000003LL);
 	v.tail = randInt(g);
 }
+void fill(std::mt19937& g, ShapeL& v) { fill(g, v.pre); fill(g, v.a); fill(g, v.mid); fill(g, v.b); fill(g, v.b2); fill(g, v.post); }
 void fill(std::mt19937& g, InnerL& v) { fill(g, v.a); fill(g, v.s); }
 void fill(std::mt19937& g, OuterL& v) { fill(g, v.id); fill(g, v.name); fill(g, v.nums); fill(g, v.inner); fill(g, v.m); fill(g, v.opt); fill(g, v.flag); fill(g, v.d); }
 void fill(std::mt19937& g, RowL& v) { fill(g, v.x); fill(g, v.y); fill(g, v.z); fill(g, v.b); }
@@ -236,6 +255,7 @@ std::string rtTarget(const std::string& target, bool stream, unsigned seed) {
 	if (target == "rows") return roundTrip<TArchive, std::vector<RowL>>(stream, seed);
 	if (target == "rows256") return roundTripAligned<TArchive>(stream, seed);
 	if (target == "vchrono") return roundTrip<TArchive, std::vector<ChronoL>>(stream, seed);
+	if (target == "vshape") return roundTrip<TArchive, std::vector<ShapeL>>(stream, seed);
 	constexpr bool isXml = std::is_same_v<TArchive, Xml::PugiXml::XmlArchive>;
 	if constexpr (!isCsv && !isXml) {
 		if (target == "i32") return roundTrip<TArchive, int>(stream, seed);
@@ -248,6 +268,7 @@ std::string rtTarget(const std::string& target, bool stream, unsigned seed) {
 		if (target == "msi") return roundTrip<TArchive, std::map<std::string, int>>(stream, seed);
 		if (target == "outer") return roundTrip<TArchive, OuterL>(stream, seed);
 		if (target == "chrono") return roundTrip<TArchive, ChronoL>(stream, seed);
+		if (target == "shape") return roundTrip<TArchive, ShapeL>(stream, seed);
 		if (target == "vouter") return roundTrip<TArchive, std::vector<OuterL>>(stream, seed);
 	}
 	throw BadOp("target");
